@@ -33,6 +33,7 @@ RULES_DOC = {
     "R18": "`unsafe { e }` -> `{ e }` and `unsafe fn` -> `fn` (markers only)",
     "R12": "`a.mask().cmp(&b.mask())` -> `a.mask_cmp(b)`, `a.mask() < b.mask()` -> `a.mask_lt(b)` (contract methods of the Prefix trait; their order contract is discharged by the Kani harness mask_order)",
     "R11": "`vec![a, b]` -> `vec2(a, b)`-style helper calls with vstd-verified bodies (speclib/std_specs.rs)",
+    "R24": "`for PAT in X { B }` / `X.into_iter().for_each(|PAT| { B });` over a generic `X: IntoIterator` -> `let mut it__ = into_iter_model(X); loop { match src_next(&mut it__) { None => { break; } Some(PAT) => { B } } }` - the loop that the language defines `for` as (and that the default `Iterator::for_each` runs); into_iter_model / src_next are TRUSTED wrappers of IntoIterator::into_iter / Iterator::next over an uninterpreted finite item sequence (assumes: the iterator is finite and, for for_each, not overridden with different behaviour)",
     "Rx": "per-function textual rewrites declared in the contract store (`rewrite /re/ => text ## why`); each is listed with its reason in the evidence. The ones in use: "
           "R6 closure body of `iter.map(|x| ..)` lifted into a function of one element (extend_lpm_elem); "
           "R19 ghost parameters `Ghost(xa), Ghost(xb)` appended to `next()` of the set-operation iterators (erased); "
@@ -372,6 +373,58 @@ def rewrite_R12(text):
     text = re.sub(ID + r"\.repr\(\)\s*!=\s*" + ID + r"\.repr\(\)", lambda m: "!%s.repr_eq(%s)" % (m.group(1), arg(m.group(2))), text)
     text = re.sub(ID + r"\.repr\(\)\s*<\s*" + ID + r"\.repr\(\)", lambda m: "%s.repr_lt(%s)" % (m.group(1), arg(m.group(2))), text)
     text = text.replace("std::cmp::Ordering::", "core::cmp::Ordering::")
+    return text
+
+def rewrite_R24(text):
+    """`for PAT in X { B }` and `X.into_iter().for_each(|PAT| { B });` over a generic `X: IntoIterator` become the loop
+    that the language (for) / the default method (Iterator::for_each) define them as:
+        let mut it__ = into_iter_model(X); loop { match src_next(&mut it__) { None => { break; } Some(PAT) => { B } } }
+    into_iter_model / src_next are TRUSTED one-line wrappers of IntoIterator::into_iter / Iterator::next (speclib/std_specs.rs).
+    Line structure is preserved."""
+    toks = retok(text)
+    s = sigidx(toks)
+    OPENS, CLOSES = ("(", "[", "{"), (")", "]", "}")
+    edits = []
+    def head(x, pat):
+        return "let mut it__ = into_iter_model(%s); loop { match src_next(&mut it__) { None => { break; } Some(%s) => {" % (x, pat)
+    for a, k in enumerate(s):
+        t = toks[k]
+        if t.kind == "ident" and t.text == "for":
+            j = a + 1; depth = 0; kin = None
+            while j < len(s):
+                tt = toks[s[j]]
+                if tt.kind == "punct" and tt.text in ("{", ";") and depth == 0: break
+                if tt.kind == "punct" and tt.text in OPENS: depth += 1
+                elif tt.kind == "punct" and tt.text in CLOSES: depth -= 1
+                elif tt.kind == "ident" and tt.text == "in" and depth == 0: kin = j; break
+                j += 1
+            if kin is None or kin + 2 >= len(s): continue
+            if toks[s[kin + 1]].kind == "ident" and toks[s[kin + 2]].kind == "punct" and toks[s[kin + 2]].text == "{":
+                x = toks[s[kin + 1]].text
+                pat = text[toks[s[a + 1]].start:toks[s[kin]].start].strip()
+                kopen = s[kin + 2]; kclose = match_close(toks, kopen)
+                edits.append((t.start, toks[kopen].start + 1, head(x, pat)))
+                edits.append((toks[kclose].start, toks[kclose].start + 1, "} } }"))
+        elif t.kind == "ident" and t.text == "for_each" and a >= 6:
+            seq = [toks[s[a - d]].text for d in range(6, 0, -1)]
+            if seq[1:] != [".", "into_iter", "(", ")", "."] or toks[s[a - 6]].kind != "ident": continue
+            if a + 2 >= len(s) or toks[s[a + 1]].text != "(" or toks[s[a + 2]].text != "|": continue
+            j = a + 3; depth = 0
+            while j < len(s):
+                tt = toks[s[j]]
+                if tt.kind == "punct" and tt.text in OPENS: depth += 1
+                elif tt.kind == "punct" and tt.text in CLOSES: depth -= 1
+                elif tt.kind == "punct" and tt.text == "|" and depth == 0: break
+                j += 1
+            if j + 1 >= len(s) or toks[s[j + 1]].text != "{": continue
+            pat = text[toks[s[a + 3]].start:toks[s[j]].start].strip()
+            kopen = s[j + 1]; kclose = match_close(toks, kopen)
+            kparen_close = match_close(toks, s[a + 1])
+            edits.append((toks[s[a - 6]].start, toks[kopen].start + 1, head(toks[s[a - 6]].text, pat)))
+            edits.append((toks[kclose].start, toks[kparen_close].start + 1, "} } }" + "\n" * text[toks[kclose].start:toks[kparen_close].start + 1].count("\n")))
+    for (b, e, r) in sorted(edits, reverse=True):
+        r = r + "\n" * (text[b:e].count("\n") - r.count("\n"))
+        text = text[:b] + r + text[e:]
     return text
 
 def rewrite_R2(text):
@@ -737,6 +790,11 @@ def emit_fn(out, u, fs, rules_used):
         t2 = rewrite_R2(text1)
         if t2 != text1: rules_used.add("R2")
         text1 = t2
+    if fs.opts.get("iter_model"):
+        t2 = rewrite_R24(text1)
+        if t2 == text1:
+            raise LostAnchor("fn %s: no `for .. in <ident>` / `<ident>.into_iter().for_each(|..| {..})` found (rule R24)" % fs.name)
+        rules_used.add("R24"); text1 = t2
     for rule, fnr in (("R18", rewrite_R18),):
         t2 = fnr(text1)
         if t2 != text1: rules_used.add(rule)
